@@ -15,6 +15,7 @@ import OFV.Proofs.C19MolId
 import OFV.Proofs.C19MolOracle
 import OFV.Proofs.C19Phys
 import OFV.Proofs.C19Exchange
+import OFV.Proofs.C19OneNormId
 import OFV.Proofs.C19Mono
 
 namespace OFV.C19
@@ -311,6 +312,21 @@ theorem one_norm_exchange_pair_partial (a c : Nat) (h : a + 1 < c) (K : Rat) :
         = Spec.GV.coeff (Spec.applyOp .fermion (OFV.C19P.exchangeFermi a c K) [m]) [u])
     ∧ jwOneNorm (c + 2) (OFV.C19P.exchangeFermi a c K) false = some (Spec.C19.rabs K) :=
   ⟨fun m u => OFV.C19P.exchange_pair_den a c h K m u, OFV.C19P.exchange_pair_norm a c h K⟩
+
+/-- **`get_one_norm_int` (identity included) is the value of the Spec oracle**, same class as
+`one_norm_spec_partial` (every `n`, real symmetric `h`, Coulomb-type `g`): the Model of `get_one_norm_int` equals
+`jwOneNorm (2n) (molOp n const h g) true`, the 1-norm of ALL coefficients of the Pauli decomposition.  The oracle with and
+without the identity differ exactly by `|Tr H| / 4^n = |htilde|` (`one_norm_identity_coefficient`); all traces the oracle
+inspects are real.  Missing for the full statement: the same classes of integrals as for `one_norm_spec_partial`. -/
+theorem one_norm_int_spec_partial (tol : Rat) (n : Nat) (const : Rat) (h : List (List Rat))
+    (g : List (List (List (List Rat)))) (hn : h.length = n)
+    (hsupp : ∀ p q r s, ¬ (s = p ∧ r = q) → m4 g p q r s = 0)
+    (symH : ∀ p q, p < n → q < n → m2 h q p = m2 h p q)
+    (symJ : ∀ p q, p < n → q < n → m4 g q p p q = m4 g p q q p)
+    (hok : Model.C04.jwDCHOk tol (2 * n) (⟨const, 0⟩ : GQ) (flatReal (2 * n) (spinOne n h))
+      (flatReal (2 * n) (spinCoulomb n g)) = true) :
+    jwOneNorm (2 * n) (molOp n const h g) true = some (oneNorm const h g) :=
+  OFV.C19Jw.oneNorm_eq_oracle tol n const h g hn hsupp symH symJ hok
 
 /-- `lambda_norm_spec` in the form the driver evaluates (`c19.spec.dch_pauli_norm`): the matrices are flattened by
 `Spec.C19.flatReal`, the threshold is the extracted `EQ_TOLERANCE`; the driver reports `jwDCHOk` and the 1-norm
